@@ -57,8 +57,16 @@ class ParseError(ProgrammingError):
 
 
 def parse(text):
+    bqlparser = parser.BQLParser()
     try:
-        return parser.BQLParser().parse(text, semantics=BQLSemantics())
+        return bqlparser.parse(text, semantics=BQLSemantics())
+    except ValueError as exc:
+        # A literal that matches the grammar but does not denote a
+        # value, for example the date 2014-13-01.
+        tokenizer = bqlparser.tokenizer
+        line = tokenizer.line_info(tokenizer.pos).line
+        parseinfo = tatsu.infos.ParseInfo(tokenizer, 'literal', tokenizer.pos, tokenizer.pos + 1, line, [])
+        raise ParseError(parseinfo) from exc
     except tatsu.exceptions.ParseError as exc:
         try:
             line = exc.tokenizer.line_info(exc.pos).line
